@@ -249,8 +249,8 @@ def display_call_exact(chk, F, rule, cfg):
         elems = []
         for d in p.decisions:
             v = strip(d.value)
-            if v[0] == 'discr' and strip(v[1])[0] in ('deref', 'field') and mentions(v[1], lambda x: x[0] == 'call' and re.search(r'Iterator>?::next$', x[1])) and not L.is_iter_next(v):
-                elems.append(decision_variant(F, d))
+            if v[0] == 'discr' and strip(v[1])[0] in ('deref', 'field') and mentions(v[1], lambda x: x[0] == 'call' and re.search(r'Iterator>?::next$|<impl \[T\]>::split_first$', x[1])) and not L.is_iter_next(v):
+                elems.append(decision_variant(F, d))      # (an element: what `next()` yielded, or the head `split_first()` split off)
         if toks is None:
             chk.ob(rule, 'every write of FnActualCall::fmt is understood', False, config=cfg, fn=fn, site='render', unrecognised=True, what='unknown write on a path with elements %s' % elems)
             continue
@@ -260,7 +260,7 @@ def display_call_exact(chk, F, rule, cfg):
                 got += x
             elif mentions(x, lambda y: y[0] == 'ref' and y[1][1][-2:] == (('f', 'info'), ('f', 'path'))) or field_path(x)[1][-2:] == ['info', 'path']:
                 got += '<path>'
-            elif mentions(x, lambda y: y[0] == 'as' and y[2] == 'Some' and mentions(y, lambda z: z[0] == 'call' and re.search(r'Iterator>?::next$', z[1]))) or \
+            elif mentions(x, lambda y: y[0] == 'as' and y[2] == 'Some' and mentions(y, lambda z: z[0] == 'call' and re.search(r'Iterator>?::next$|<impl \[T\]>::split_first$', z[1]))) or \
                     mentions(x, lambda y: y[0] == 'ref' and ('dc', 'Some') in y[1][1] and mentions(y[1][0], lambda z: z[0] == 'call' and re.search(r'Iterator>?::next$', z[1]))):
                 got += '<arg>'
             else:
@@ -291,7 +291,7 @@ def display_call(chk, F, rule, cfg):
             if v[0] == 'discr' and L.is_iter_next(v):
                 src = v[1]
                 names = L.pipeline_calls(src, lambda x: field_path(x)[1][:1] == ['inputs_debug'] and field_path(x)[0] == ('param', 0, 1))
-                ok = names is not None and all(re.search(r'(Iterator>?::next|Iterator::peekable|Peekable::peek|::iter|Deref>?::deref|IntoIterator>?::into_iter|Iterator::enumerate)$', n) for n in names)
+                ok = names is not None and all(re.search(r'(Iterator>?::next|Iterator::peekable|Peekable::peek|::iter|Deref>?::deref|IntoIterator( for [^>]*)?>?::into_iter|Iterator::enumerate|<impl \[T\]>::split_first)$', n) for n in names)
                 chk.ob(rule, 'arguments are rendered in declaration order (forward traversal of inputs_debug)', ok, config=cfg, fn=fn, site='order', what='traversal %s' % names, found=names)
         elem_decs = [d for d in p.decisions if strip(d.value)[0] == 'discr' and strip(strip(d.value)[1])[0] in ('deref', 'field') and mentions(strip(d.value)[1], lambda x: x[0] == 'call' and re.search(r'Iterator>?::next$', x[1]))]
         for d in elem_decs:
@@ -358,7 +358,7 @@ def expected_pattern_lookup(chk, F, rule, cfg):
                 nm = e.data[1]
                 if re.search(r'Iterator>?::next$', nm):
                     pn = L.pipeline_calls(e.data[2][0], own)
-                    if pn is None or not all(re.search(r'(BTreeMap(<.*>)?::(values|iter)$|Iterator>?::next$|IntoIterator>?::into_iter$)', x) for x in pn):
+                    if pn is None or not all(re.search(r'(BTreeMap(<.*>)?::(values|iter)$|Iterator>?::next$|IntoIterator( for [^>]*)?>?::into_iter$)', x) for x in pn):
                         ok, why = False, 'the loop does not walk the method tables themselves: %s' % (pn,)
                         break
                     cur = ('call', nm, e.data[2], e.data[3])
@@ -396,7 +396,7 @@ def expected_pattern_lookup(chk, F, rule, cfg):
     for p in paths:
         v = p.outcome[1] if p.outcome[0] == 'return' else ('unk', '')
         names = L.pipeline_calls(v, own)
-        ok = names is not None and all(re.search(r'(BTreeMap(<.*>)?::(values|iter)$|Iterator>?::(find_map|filter|filter_map|map|next|find)$|IntoIterator>?::into_iter$)', x) for x in names)
+        ok = names is not None and all(re.search(r'(BTreeMap(<.*>)?::(values|iter)$|Iterator>?::(find_map|filter|filter_map|map|next|find)$|IntoIterator( for [^>]*)?>?::into_iter$)', x) for x in names)
         chk.ob(rule, 'the expected pattern is searched in every method\'s table', ok, config=cfg, fn=fn, site='expected:pipeline', unrecognised=(names is None), what='expected-pattern search %s' % (names,), found=names)
         for e in p.calls(r'Iterator>?::(find_map|filter|filter_map|map|find)$'):
             c = strip(e.data[2][1])
